@@ -129,6 +129,19 @@ func (s *Store) RegisterKind(gk schema.GroupKind, namespaced bool) {
 
 func (s *Store) UnregisterKind(gk schema.GroupKind) { delete(s.scopes, gk) }
 
+// DropKind removes every stored object of a GroupKind (all namespaces) without consuming uid /
+// resourceVersion numbers: the API (CRD) is removed or re-registered and its objects go with it.
+func (s *Store) DropKind(gk schema.GroupKind) {
+	s.mu.Lock()
+	defer s.mu.Unlock()
+	for k := range s.objs {
+		if k.Group == gk.Group && k.Kind == gk.Kind {
+			delete(s.objs, k)
+			delete(s.managed, k)
+		}
+	}
+}
+
 // ---------------------------------------------------------------- REST mapper
 
 type mapper struct{ s *Store }
